@@ -1,7 +1,7 @@
 """C14 - subset and plate views are exact row selections with set-algebra semantics."""
 import ast
 
-from engine.astutil import U, calls, kwargs, single_defs, inline, walk_own, call_name, attr_tail, returns, enclosing_map
+from engine.astutil import U, calls, kwargs, single_defs, inline, walk_own, call_name, attr_tail, returns, enclosing_map, argv
 from engine.cfg import CFG
 from engine.fresh import Freshness, FRESH, BORROWED, UNKNOWN
 from engine.norm import Norm, parse_expr
@@ -120,7 +120,7 @@ def r3(ctx):
     if len(r) == 1 and isinstance(r[0].value, ast.Call) and len(r[0].value.args) == 2:
         c = r[0].value
         cenv = single_defs(f.node)
-        ok = U(c.args[0]) == "self.screen" and Norm(strict=False).b(inline(c.args[1], cenv)) == _bn("self.selection_vector | other.selection_vector") \
+        ok = U(argv(c)[0]) == "self.screen" and Norm(strict=False).b(inline(argv(c)[1], cenv)) == _bn("self.selection_vector | other.selection_vector") \
             and U(c.func) in ("Plate", "ScreenSubset")
     ctx.check("R3", f"{f.site()}::union", ok, "combine = view(self.screen, self.sel | other.sel)",
               f"combine returns `{U(r[0].value) if r else None}`, not the union of the two selections over the same parent")
@@ -132,8 +132,8 @@ def r3(ctx):
     # invert
     f = ctx.fn("data.ScreenSubset.invert")
     r = returns(f.node)
-    ok = len(r) == 1 and isinstance(r[0].value, ast.Call) and len(r[0].value.args) == 2 and U(r[0].value.args[0]) == "self.screen" \
-        and Norm(strict=False).b(r[0].value.args[1]) == _bn("~self.selection_vector")
+    ok = len(r) == 1 and isinstance(r[0].value, ast.Call) and len(argv(r[0].value)) == 2 and U(argv(r[0].value)[0]) == "self.screen" \
+        and Norm(strict=False).b(argv(r[0].value)[1]) == _bn("~self.selection_vector")
     ctx.check("R3", f"{f.site()}::complement", ok, "invert = view(self.screen, ~self.sel)", f"invert returns `{U(r[0].value) if r else None}`")
     def concat_rule():
         # concat
@@ -157,7 +157,7 @@ def r3(ctx):
             rr0 = [x for x in returns(f.node) if isinstance(x.value, ast.Call) and len(x.value.args) == 2]
             red = None
             for x in rr0:
-                v = inline(x.value.args[1], env)
+                v = inline(argv(x.value)[1], env)
                 if isinstance(v, ast.Call) and U(v.func) in ("np.logical_or.reduce", "np.bitwise_or.reduce") and len(v.args) == 1 and all(k.arg == "axis" and U(k.value) == "0" for k in v.keywords) \
                         and isinstance(v.args[0], (ast.ListComp, ast.GeneratorExp)) and len(v.args[0].generators) == 1 and not v.args[0].generators[0].ifs:
                     g_ = v.args[0].generators[0]
@@ -179,7 +179,7 @@ def r3(ctx):
                                 parent_guard = True
                 ctx.check("R3", f"{f.site()}::guards", parent_guard and empty_guard, "refuses empty input and views of different parents",
                           f"{'no refusal of an empty list; ' if not empty_guard else ''}{'no identity test of every view parent against the first one' if not parent_guard else ''}")
-                ctx.check("R3", f"{f.site()}::result", C(red.value.args[0]) == P, "result is a view of the common parent with the accumulated selection", f"concat returns `{U(red.value)}`")
+                ctx.check("R3", f"{f.site()}::result", C(argv(red.value)[0]) == P, "result is a view of the common parent with the accumulated selection", f"concat returns `{U(red.value)}`")
                 return
         if len(loops) != 1:
             raise AnalysisError(f"{f.site()}: the union is not accumulated by one loop over the list (or its tail) - fold form not recognised")
@@ -249,7 +249,7 @@ def r3(ctx):
                   f"{'no refusal of an empty list; ' if not empty_guard else ''}{'no identity test of every view parent against the first one' if not parent_guard else ''}")
         rr = [x for x in returns(f.node) if isinstance(x.value, ast.Call)]
         tail_copy = {k: v for k, v in env.items() if isinstance(v, ast.Name)}       # `result = acc` before the return
-        ok = len(rr) == 1 and len(rr[0].value.args) == 2 and C(rr[0].value.args[0]) == P and U(inline(rr[0].value.args[1], tail_copy)) == acc
+        ok = len(rr) == 1 and len(argv(rr[0].value)) == 2 and C(argv(rr[0].value)[0]) == P and U(inline(argv(rr[0].value)[1], tail_copy)) == acc
         ctx.check("R3", f"{f.site()}::result", ok, "result is a view of the common parent with the accumulated selection",
                   f"concat returns `{U(rr[0].value) if rr else None}`")
 
@@ -265,8 +265,8 @@ def r3(ctx):
     f = ctx.fn("data.Screen.get_plate")
     r = returns(f.node)
     pid = [p for p in f.params if p != "self"][0]
-    ok = len(r) == 1 and isinstance(r[0].value, ast.Call) and U(r[0].value.args[0]) == "self" \
-        and Norm(strict=False).b(r[0].value.args[1]) == _bn(f"self.plate_ids == {pid}")
+    ok = len(r) == 1 and isinstance(r[0].value, ast.Call) and U(argv(r[0].value)[0]) == "self" \
+        and Norm(strict=False).b(argv(r[0].value)[1]) == _bn(f"self.plate_ids == {pid}")
     ctx.check("R3", f"{f.site()}::rows", ok, "plate = rows whose plate id equals the given id", f"get_plate returns `{U(r[0].value) if r else None}`")
     gp = ctx.fn("data.Screen.get_plate")
     gpr = returns(gp.node)
@@ -277,7 +277,7 @@ def r3(ctx):
     if not ok and isinstance(rv, ast.ListComp):
         lc = rv
         shape = len(lc.generators) == 1 and not lc.generators[0].ifs and U(lc.generators[0].iter) == "self.unique_plate_ids" and isinstance(lc.generators[0].target, ast.Name)
-        ok = shape and isinstance(lc.elt, ast.Call) and U(lc.elt.func) == "self.get_plate" and U(lc.elt.args[0]) == U(lc.generators[0].target)
+        ok = shape and isinstance(lc.elt, ast.Call) and U(lc.elt.func) == "self.get_plate" and U(argv(lc.elt)[0]) == U(lc.generators[0].target)
         if shape and not ok and len(gpr) == 1:
             # get_plate written out in place: its return expression with the loop variable for the id
             want_elt = inline(gpr[0].value, {pid: ast.Name(id=lc.generators[0].target.id, ctx=ast.Load())})
@@ -342,8 +342,8 @@ def subset_composition(ctx, rule="R3"):
     val_inner = base(st.value) == "inner"
     val_true = isinstance(st.value, ast.Constant) and st.value.value is True
     ret = returns(f.node)
-    returned_ok = len(ret) == 1 and isinstance(ret[0].value, ast.Call) and len(ret[0].value.args) == 2 and U(ret[0].value.args[0]) == "self.screen" \
-        and U(ret[0].value.args[1]) == U(st.targets[0].value)
+    returned_ok = len(ret) == 1 and isinstance(ret[0].value, ast.Call) and len(argv(ret[0].value)) == 2 and U(argv(ret[0].value)[0]) == "self.screen" \
+        and U(argv(ret[0].value)[1]) == U(st.targets[0].value)
     if idx == "inner-positions":
         ctx.bad(rule, f"{f.site()}::composition", f"`{U(st)}`: the positions of the inner mask (positions inside the view) index a vector over the parent's rows - "
                 f"a subset of a subset selects the first rows of the screen instead of rows of the outer view unless the outer view is a prefix")
@@ -363,7 +363,7 @@ def observed_subsets(ctx):
         f = ctx.fn(f"data.Screen.{name}")
         r = [x for x in returns(f.node) if x.value is not None]
         ok = len(r) == 1 and isinstance(r[0].value, ast.Call) and U(r[0].value.func) == "self.subset" \
-            and Norm(strict=False).b(r[0].value.args[0]) == _bn(m)
+            and Norm(strict=False).b(argv(r[0].value)[0]) == _bn(m)
         par = enclosing_map(f.node)
         guard_ok = False
         if ok:
@@ -388,7 +388,7 @@ def observed_subsets(ctx):
                             has_any = False
                     if ret is None or (isinstance(ret, ast.Constant) and ret.value is None):
                         good = good and has_any is False
-                    elif isinstance(ret, ast.Call) and U(ret.func) == "self.subset" and len(ret.args) == 1 and Nn.b(ret.args[0]) == _bn(m):
+                    elif isinstance(ret, ast.Call) and U(ret.func) == "self.subset" and len(argv(ret)) == 1 and Nn.b(argv(ret)[0]) == _bn(m):
                         good = good and has_any is True
                         seen_view = True
                     else:
@@ -422,7 +422,7 @@ def unique_filter(ctx, rule):
     N = Norm(strict=False)
     usel = [c for c in calls(f.node) if U(c.func) == "select_unique_zipped_numpy_arrays"]
     ctx.need(len(usel) == 1, f"{f.site()}: call of select_unique_zipped_numpy_arrays not found")
-    arg0 = usel[0].args[0]
+    arg0 = argv(usel[0])[0]
     cols = key_columns(f, arg0, env, S)
     if cols is None:
         raise AnalysisError(f"{f.site()}: the list of key columns `{U(arg0)[:60]}` is not built in a recognised way (literal / + / comprehension / append loop)")
@@ -433,7 +433,7 @@ def unique_filter(ctx, rule):
     r = returns(f.node)
     ret_ok = False
     if len(r) == 1 and isinstance(r[0].value, ast.Call) and U(r[0].value.func) == f"{S}.subset" and len(r[0].value.args) == 1:
-        m = r[0].value.args[0]
+        m = argv(r[0].value)[0]
         if isinstance(m, ast.Name) and m.id in env:
             m = env[m.id]
         ret_ok = m is usel[0]
